@@ -16,6 +16,7 @@ def check(ctx, prog):
     propagators.rule_mirror_entail(ctx, prog)
     propagators.rule_entail_guard(ctx, prog)
     propagators.rule_vector_width(ctx, prog)
+    propagators.rule_interval_sum(ctx, prog)
     engine.rule_wakeup(ctx, prog)
     engine.rule_writeback(ctx, prog, want=("R-FLAGS-WRITERS",))
     search.rule_solve_one(ctx, prog, want=("R-HANDOVER",))
